@@ -250,6 +250,22 @@ def discharge(ob, timeout_ms=10000):
                 r = z3.unsat
                 ob.note = (ob.note + " " if ob.note else "") + "[proved from the linear hypotheses only]"
             ob.time_s = time.time() - t0
+    weak = False
+    if r == z3.unknown:
+        # counter-model search on the ground hypotheses only (quantified invariants/laws dropped): a model found
+        # here is only a *candidate* - it is believed only if its native replay fails on the real code
+        s3 = z3.Solver()
+        s3.set("timeout", int(min(timeout_ms, 5000)))
+        for h in ob.hyps:
+            if not z3.is_quantifier(h):
+                s3.add(h)
+        s3.add(z3.Not(ob.goal))
+        if s3.check() == z3.sat:
+            r = z3.sat
+            s = s3
+            weak = True
+            ob.note = (ob.note + " " if ob.note else "") + "[candidate counter-model of the ground hypotheses; quantified hypotheses undecided]"
+        ob.time_s = time.time() - t0
     if r == z3.unsat:
         ob.status = "proved"
     elif r == z3.sat:
